@@ -237,6 +237,7 @@ type cafsCfg struct {
 	schedFailures int
 	dumpKeys      func(map[string]interface{})
 	noVerify      bool // store instances built with VerifyHash(false): the bytes must come back all the same
+	touchFails    bool // the store cannot refresh objects (Touch always fails, as on stores without that call)
 }
 
 const stepWait = 3 * time.Second
@@ -287,6 +288,9 @@ func runCafsBehaviour(cfg *cafsCfg, i int, line []byte, r *vutil.BehResult) {
 	}
 	w := store.NewWorld()
 	ctl := &store.Ctl{Name: "writer", PlainReaders: cfg.noVerify}
+	if cfg.touchFails {
+		ctl.FaultFn = func(storeName, op, key string, nth int) bool { return op == "touch" }
+	}
 	var backend storage.Store
 	v := store.NewView(w, "blob", ctl)
 	if cfg.crc {
@@ -834,6 +838,7 @@ func cafsReplay(args []string) error {
 	seed := fl.Uint64("seed", 1, "seed")
 	keysOut := fl.String("keys-out", "", "dump (content, key) pairs for the independent hash oracle")
 	noVerify := fl.Bool("noverify", false, "build the store instances with VerifyHash(false)")
+	touchFails := fl.Bool("touch-fails", false, "Touch always fails on the blob store")
 	leafCycle := fl.String("leaf-cycle", "", "comma separated leaf sizes used in turn by the behaviours of ONE process (state shared between store instances)")
 	_ = fl.Parse(args)
 	var cycle []int
@@ -843,7 +848,7 @@ func cafsReplay(args []string) error {
 		}
 	}
 	cfg := &cafsCfg{ref: refine{L: *cells, Lambda: *lambda, Boundary: *boundary, Seed: *seed}, style: *style, crc: *crc,
-		prefetch: *prefetch, cache1: *cache1, sched: *sched, reads: *reads, rng: rand.New(rand.NewSource(int64(*seed))), noVerify: *noVerify}
+		prefetch: *prefetch, cache1: *cache1, sched: *sched, reads: *reads, rng: rand.New(rand.NewSource(int64(*seed))), noVerify: *noVerify, touchFails: *touchFails}
 	var kf *os.File
 	if *keysOut != "" && os.Getenv("VH_CHILD") != "" {
 		var err error
